@@ -160,6 +160,7 @@ class Walk:
         self.items = []
         self.nbits = 0
         self.tail_min = 0  # minimum bits still to come after the field being drawn (encode mode aid)
+        self.counters = set()  # keys used as repeat designators
         self.per_iter = 0  # bits per iteration of the group(s) counted by the field being drawn
         self.scratch = {}
         self.stats = {"groups": 0, "iters": 0, "optional": 0, "nested": 0, "maxidx": 0}
@@ -214,6 +215,7 @@ class Walk:
                             raise BadDefinition(f"'{cnt}' used at nesting depth {len(idx)} in {self.ident}")
                         for i in range(lv):
                             nm += f"_{idx[i]:02d}"
+                    self.counters.add(counter_base(cnt))
                     n = self._lookup(nm)
                     if not isinstance(n, int):
                         raise BadDefinition(f"counter '{nm}' in {self.ident} is not an integer ({n!r})")
